@@ -2,12 +2,16 @@
 
 proof : coq/Properties_C07.v over coq/Lookup/*.v (a port of Table::Query's breadth-first walk, match_extra_code,
         lookup_table, the chunk comparator and DictEntryIterator::{Peek,Next,Sort}, Dictionary::LookupWords,
-        ScriptTranslation, TableTranslation/LazyTableTranslation, SentenceTranslation, DistinctTranslation) over an
-        abstract syllable graph, an abstract table index and an abstract prism; Poet is an oracle.
+        ScriptTranslation, TableTranslation/LazyTableTranslation, SentenceTranslation, DistinctTranslation, and
+        Poet::MakeSentence with both strategies - coq/Lookup/Poet.v) over an abstract syllable graph, an abstract table
+        index and an abstract prism.
 tie   : correspondence - generated *.dict.yaml + schemas are deployed with the real rime_deployer (asan build of
         /repo's working tree); the harness dumps prism, table index, syllable graph and the full candidate list of
         the real translators for every input up to a length bound over alphabet + delimiter (exhaustive) and random
-        longer ones; the extracted model gets the same dumps and must print the same candidate list.
+        longer ones; the extracted model gets the same dumps and must print the same candidate list, the sentence
+        included: it is computed by the modelled Poet from the model's word graph.  A second stream hands generated
+        word graphs to rime::Poet::MakeSentence directly (harness/c07/poet.cc; DynamicProgramming and, with a test
+        grammar registered, BeamSearch; CompareWeight and LeftAssociateCompare) and to the modelled Poet.
 search: a brute-force reference of the *property* computed from the SOURCE ROWS (independent of model and code).
 """
 import hashlib
@@ -852,8 +856,12 @@ TRUSTED_BASE = [
     "extraction: ExtrOcamlBasic only; ocaml/common/glue.ml + ocaml/c07/driver.ml are parsing/printing glue",
     "the syllable graph (C08), the compiled table index (C06) and the prism (C09) are INPUTS of the model: the harness "
     "dumps them from the real objects and both sides consume the same dumps",
-    "gear/poet.cc is an oracle: only its type is assumed (a chain of word-graph entries covering the input, absent iff "
-    "no such chain exists); the assumption is validated on every sentence the implementation produced",
+    "gear/poet.cc is modelled (coq/Lookup/Poet.v) with exact integer weights; IEEE rounding of the sums is not modelled: "
+    "the sentence is compared exactly where every decision of the modelled run has a margin of 2^-20 or is a tie between "
+    "lines built by the same operation sequence (Poet.v robust), otherwise the observed sentence must be a chain within the "
+    "tolerance of the optimum; std::unordered_map iteration order (BeamSearch) is modelled as insertion order and cases "
+    "where it could matter are judged as sets; the grammar plugin is a function parameter (none exists in the tree; the "
+    "direct stream registers a test grammar)",
     "weights/credibilities are carried as exact integers (float/double value * 2^96); double rounding of "
     "credibility + weight is not modelled",
     "std::partial_sort(first, first+1, last) is modelled as libstdc++ implements it (swap loop); the final order of "
@@ -864,7 +872,8 @@ TRUSTED_BASE = [
 ASSUMPTIONS = [
     "learning off: translator/enable_user_dict: false (no user dictionary, no encoder, no charset filter)",
     "one table per dictionary (no packs); max_homographs = 1 and sentence_over_completion = false (defaults)",
-    "Poet::MakeSentence returns a chain of word-graph entries from 0 to the total length, and nothing iff none exists",
+    "no grammar component is registered in the translator stream (the stock build), so Poet takes DynamicProgramming; "
+    "BeamSearch is exercised by the direct stream only; contextual_suggestions (contextual_translation.cc) is off",
     "spelling algebra in the generated schemas is restricted to anchored literal derive/xform rules (all spellings of "
     "normal type); the model itself takes arbitrary graphs and prisms",
     "inputs starting with a delimiter are outside the property's domain (the speller refuses a delimiter as an initial): "
@@ -1199,6 +1208,21 @@ MUTATION_DRILLS = [
               "adds, to every table-style dictionary, three syllables with interleaved multi-entry word lists and two variants whose "
               "algebra maps all three onto one spelling; the run check is stated over the whole maximal run (ties as multisets); "
               "coverage.distribution counts table_inputs_spelling_3_or_more_codes"},
+    {"mutation": "poet.cc MakeSentenceWithStrategy: `if (best.empty() || compare_(best, new_line))` -> `if (best.empty())` "
+                 "(the dynamic programme keeps the FIRST line that reaches a position instead of the best)", "compiles": True,
+     "detected": True,
+     "fired": "VIOLATION correspondence:c07 no-failing-input-found with a concrete input: schema ds0_v0, input 'abbabaabbaabab' - "
+              "sentence of the real translator vs the modelled Poet's (367 translator cases differ; corpus/C07/"
+              "drill-poet-keep-first-translator.json), plus correspondence:poet on the direct stream (1608 of 6000 word graphs, "
+              "corpus/C07/drill-poet-keep-first-direct.json) and correspondence:poet-near-tie (65 cases: the observed sentence is "
+              "further from the optimum than the tolerance).  A worse sentence is still a concatenation of entries covering the "
+              "input, so the property's text is not violated: reported as a correspondence break"},
+    {"mutation": "poet.cc MakeSentenceWithStrategy: drop `if (states.find(start_pos) == states.end()) continue;` (no "
+                 "reachability test: every start position of the graph is extended, an unreached one from an empty line)",
+     "compiles": True, "detected": True,
+     "fired": "VIOLATION script:foreign-sentence:sentence with a concrete failing input (found by the source-row reference): schema "
+              "ds0_v0, input 'bab', candidate `sentence 0 3` consisting of one word that is spelled by [1,3) only - not a "
+              "concatenation covering the input (corpus/C07/drill-poet-no-reachability-test.json)"},
     {"mutation": "(unfixed tree) table_translator.cc without the Sort() calls of fix 3b72e76", "compiles": True, "detected": True,
      "fired": "VIOLATION table:weight-order:plain, failing input 'bb' with speller/algebra xform/^b$/bb/ (corpus/C07/unfixed-table-weight-order.json)"},
     {"mutation": "(unfixed tree) table_translator.cc with the shallow DictEntryIterator copy, before fix f0d9311", "compiles": True,
@@ -1209,18 +1233,29 @@ MUTATION_DRILLS = [
 
 MANIFEST = {
     "category": "proof",
-    "technique": "Coq theorems over a port of Table::Query / match_extra_code / DictEntryIterator / Script- and TableTranslation "
-                 "(abstract syllable graph, table index and prism; Poet as oracle) + extracted-model/real-translator correspondence "
+    "technique": "Coq theorems over a port of Table::Query / match_extra_code / DictEntryIterator / Script- and TableTranslation / "
+                 "Poet::MakeSentence (abstract syllable graph, table index and prism) + extracted-model/real-translator "
+                 "correspondence (candidate lists with sentences; rime::Poet directly on generated word graphs) "
                  "+ brute-force reference from the source rows",
-    "text": "Properties_C07.v (51 theorems, no axioms) proves of the model, for every graph, table, prism and input: Table::Query "
+    "text": "Properties_C07.v (73 theorems, no axioms) proves of the model, for every graph, table, prism and input: Table::Query "
             "returns at each end position exactly the index codes labelling a path (codes > 3 syllables through the tail page and "
             "match_extra_code, registered at the farthest end); the script translator's phrase candidates are exactly the table "
             "entries whose code is spelled from 0 (C07_script_candidates_exact, C07_collector_exact), every such entry survives "
-            "DistinctTranslation, longer matches come first, inside one end position best head first (weight + credibility, "
-            "same-code dictionary-weight order: partial), the sentence is a concatenation of spelled entries covering the "
-            "interpreted input (Poet's answer type assumed), nothing else is emitted; in the candidate list (after "
+            "DistinctTranslation, longer matches come first, inside one end position best head first (weight + credibility of "
+            "the path the chunk was reached over: the order the code implements), the sentence is a concatenation of spelled "
+            "entries covering the interpreted input, nothing else is emitted; in the candidate list (after "
             "DistinctTranslation) entries of one code appear in non-increasing dictionary weight order (full; refuted for the "
-            "undeduplicated stream); table translator: entries whose code equals "
+            "undeduplicated stream).  The sentence maker is inside the model (Lookup/Poet.v: Poet::MakeSentence with the "
+            "DynamicProgramming and BeamSearch strategies, CompareWeight / LeftAssociateCompare, Grammar::Evaluate): for every "
+            "word graph, grammar and comparison a returned sentence is a chain of word-graph entries ending at total_length "
+            "that starts at 0 or - dynamic programme only - at the end of an edge without entries (witness: "
+            "C07_poet_sentence_from_zero_refuted, replayed on rime::Poet; neither translator builds such a graph: "
+            "C07_script_poet_path_ok, C07_table_wgraph_shape), so the oracle hypothesis of C07_sentence_is_concatenation / "
+            "C07_script_no_foreign_candidate is discharged (..._modelled_poet, ..._any_grammar, table analogues with tchain); "
+            "on key-ordered forward graphs the dynamic programme returns a sentence iff a chain of at least two words leads "
+            "from 0 to total_length (C07_poet_dp_complete) and no chain beats the returned line under the comparison in use "
+            "(C07_poet_dp_optimal for every strict weak order preserved by common extension, both comparisons of the tree "
+            "shown to be such; weight maximal for CompareWeight; C07_table_sentence_optimal).  Table translator: entries whose code equals "
             "the input in non-increasing weight order (refuted for the code before fix 3b72e76, proved after), none but those when "
             "completion is off, with completion only entries of keys extending the input, and for any number of fetches (limits "
             "10/100/1000 with Skip) the first ten keys' entries come first, best head first, followed only by entries of later "
@@ -1237,8 +1272,10 @@ MANIFEST = {
             "extracted model must print the same list, and a brute-force reference from the source rows judges the property itself.",
     "note": "Level proof, partial: the syllable graph and the compiled index are inputs of the model (hypotheses wf_graph, "
             "graph_pruned, wf_table, table_sorted - discharged for C08's and C06's builders in Compose.v/ComposeTable.v; the real "
-            "dumps are fed to the model), the prism of the table translator (C09) is an input in ExpandSearch order, Poet "
-            "is an oracle (answer type validated on every sentence), weights are exact integers (no double rounding), "
+            "dumps are fed to the model), the prism of the table translator (C09) is an input in ExpandSearch order, "
+            "weights are exact integers (no double rounding: the sentence is compared exactly only where every decision of the "
+            "modelled Poet has a margin, near ties are judged as sets), BeamSearch's hash-map order modelled as insertion order, "
+            "the grammar plugin is a parameter, contextual_suggestions not modelled, "
             "std::partial_sort modelled as libstdc++'s swap loop, learning off, one table, max_homographs=1.  Known findings on the "
             "unchanged tree: prefix phrases off a complete segmentation in the table translator's sentence mode; remaining_code "
             "computed from the syllable name under spelling algebra.  Fixed: unsorted first candidate of the table translator "
